@@ -1753,7 +1753,7 @@ class VM:
         """Create a bound RegExp method."""
 
         def test_fn(*args):
-            string = to_string(args[0]) if args else ""
+            string = to_string(args[0]) if args else "undefined"
             try:
                 return re.test(string)
             except RegexTimeoutError:
@@ -1764,7 +1764,7 @@ class VM:
                 )
 
         def exec_fn(*args):
-            string = to_string(args[0]) if args else ""
+            string = to_string(args[0]) if args else "undefined"
             try:
                 return re.exec(string)
             except RegexTimeoutError:
@@ -2351,7 +2351,7 @@ class VM:
 
         def match(*args):
             pattern = args[0] if args else None
-            if pattern is None:
+            if pattern is None or pattern is UNDEFINED:
                 # Match empty string
                 arr = JSArray()
                 arr._elements = [""]
@@ -2436,7 +2436,7 @@ class VM:
 
         def search(*args):
             pattern = args[0] if args else None
-            if pattern is None:
+            if pattern is None or pattern is UNDEFINED:
                 return 0  # Match empty string at start
 
             from .regex import RegExp as InternalRegExp
